@@ -166,7 +166,7 @@ func streamCoq(n *lib.RSNode, start, end []byte, rev uint64) (streamObs, error) 
 				return o, fmt.Errorf("stream message without range response / header")
 			}
 			rr := m.RangeResponse
-			if len(xs) > 40 || o.kvs > 4000 {
+			if len(xs) > 400 || o.kvs > 4000 {
 				// runaway stream (more than any store of this driver can yield): keep draining, record a
 				// malformed sentinel once so that the oracle rejects the stream without a giant case
 				if !o.runaway {
@@ -571,6 +571,27 @@ func main() {
 			runStore(w, args, s, hr, "random/memkv-wrap", ntil, nil, quick)
 		}
 	}
+	// corpus 4 (last, so that it sits in the small tail shard): engines that cut the interval into MANY pieces — 65, 127,
+	// 130 and 191 partitions of a 200-key store (seeded change C13-6: a cap on the number of workers that drops the
+	// tail when the count is not a multiple of the group size); borders on index records, just behind them and
+	// behind all versions of a key, one tiling listed in rotated order
+	many := func(pieces int, rot int) tilingSpec {
+		var bs [][]byte
+		for j := 1; j < pieces; j++ {
+			k := fmt.Sprintf("/r/k%04d", j*200/pieces)
+			switch j % 3 {
+			case 0:
+				bs = append(bs, enc(k, 0))
+			case 1:
+				bs = append(bs, enc(k, 1))
+			default:
+				bs = append(bs, enc(k, 1<<40))
+			}
+		}
+		return tilingSpec{borders: bs, rot: rot}
+	}
+	runStore(w, args, store{big: 200}, rnd.Fork(), "corpus/memkv-wrap-many-pieces", 4, []tilingSpec{many(65, 0), many(127, 0), many(130, 17), many(191, 0)}, quick)
+
 	if err := w.Finish("one case = one store (write history over 4..9 prefix-related keys, or 620 keys for the batch cut) read under 1..6 partitionings of 1..5 pieces (borders: index record, version record, synthetic Enc(k,r), between keys; shuffled; or real TiKV regions); per partitioning and (range, revision): List, Count, ListByStream whole and per advertised pair, GetPartitions, unpartitioned List; distinct = SHA-256 of the Coq case; non-trivial = some engine answer had at least 2 pieces and the store has at least 4 records"); err != nil {
 		fmt.Fprintln(os.Stderr, err)
 		os.Exit(2)
